@@ -105,3 +105,16 @@ Theorem sstruct_fixed_nearest : forall q a, 0 <= a ->
   (Qabs (fi2fl (fl2fi q a) a - q) <= 1 # (2 * Z.to_pos (2 ^ a)))%Q.
 Proof. exact ProofsSstruct.fixed_nearest. Qed.
 Print Assumptions sstruct_fixed_nearest.
+
+(* ... and the other way round: whatever unpack reads from a record of bytes, pack writes back as the same bytes — exactly, for
+   a format without pad bytes and truth-value fields; otherwise with pad bytes zeroed and truth values made 0/1 ([normalize]) *)
+From FV Require C15.ProofsSstruct2.
+Theorem sstruct_unpack_pack : forall fmt bs vals, fmt_ok fmt = true -> Forall is_byte bs ->
+  ModelSstruct.unpack fmt bs = Ok vals -> ModelSstruct.pack fmt vals = Ok (ProofsSstruct2.normalize fmt bs).
+Proof. exact ProofsSstruct2.sstruct_unpack_pack. Qed.
+Print Assumptions sstruct_unpack_pack.
+
+Theorem sstruct_normalize_plain : forall fmt bs, forallb ProofsSstruct2.plain_kind fmt = true ->
+  length bs = calcsize fmt -> ProofsSstruct2.normalize fmt bs = bs.
+Proof. exact ProofsSstruct2.normalize_plain. Qed.
+Print Assumptions sstruct_normalize_plain.
